@@ -486,6 +486,7 @@ def degraded_campaign(ctx, camp):
         except core.Hang:
             timeouts += 1
             core.HANGS[0] -= 1          # not a finding: the scheduler cannot drive this engine
+            detsched.force_restore(camp.rfg)
             ctx.count("degraded_campaign", "run timed out (skipped)")
             continue
         except Exception as e:          # noqa - the instrumentation itself failed on the restructured engine
